@@ -292,7 +292,7 @@ class ModuleInfo:
     assigns: Dict[str, ast.AST] = field(default_factory=dict)  # module-level NAME = expr
 
 
-def canonical_branches(tree: ast.AST) -> ast.AST:
+def canonical_branches(tree: ast.AST, _rounds: int = 3) -> ast.AST:
     """`if not X: A else: B` and `if X: B else: A` are one program.  The rules are written for one of the two shapes; the tree is
     brought into the shape whose test is not a negation before anything looks at it (line numbers stay with the statements).  Likewise a
     loop body that ends in `if X: <rest>` and one that says `if not X: continue` before <rest>: the second shape is canonical."""
@@ -467,11 +467,21 @@ def canonical_branches(tree: ast.AST) -> ast.AST:
                 st = body[i]
                 nxt = body[i + 1] if i + 1 < len(body) else None
                 if isinstance(st, ast.Assign) and len(st.targets) == 1 and isinstance(st.targets[0], ast.Name) and isinstance(st.value, ast.Call) \
-                        and isinstance(nxt, ast.For) and isinstance(nxt.iter, ast.Name) and nxt.iter.id == st.targets[0].id \
-                        and stores.get(nxt.iter.id, 0) == 1 and loads.get(nxt.iter.id, 0) == 1:
-                    nxt.iter = st.value
-                    i += 1
-                    continue
+                        and stores.get(st.targets[0].id, 0) == 1 and loads.get(st.targets[0].id, 0) == 1:
+                    nm = st.targets[0].id
+                    if isinstance(nxt, ast.For) and isinstance(nxt.iter, ast.Name) and nxt.iter.id == nm:
+                        nxt.iter = st.value
+                        i += 1
+                        continue
+                    # … and `n = <call>` directly followed by `yield from n` / `return n` is `yield from <call>` / `return <call>`
+                    if isinstance(nxt, ast.Expr) and isinstance(nxt.value, ast.YieldFrom) and isinstance(nxt.value.value, ast.Name) and nxt.value.value.id == nm:
+                        nxt.value.value = st.value
+                        i += 1
+                        continue
+                    if isinstance(nxt, ast.Return) and isinstance(nxt.value, ast.Name) and nxt.value.id == nm:
+                        nxt.value = st.value
+                        i += 1
+                        continue
                 out.append(st)
                 i += 1
             return out
@@ -483,7 +493,14 @@ def canonical_branches(tree: ast.AST) -> ast.AST:
             if isinstance(node, ast.Try):
                 for h in node.handlers:
                     h.body = fold(h.body)
-    return ast.fix_missing_locations(tree)
+    tree = ast.fix_missing_locations(tree)
+    # the passes feed each other (an expanded `yield from` whose iterable was hoisted into a local): repeat to a fixed point
+    if _rounds > 1:
+        before = ast.dump(tree)
+        tree = canonical_branches(tree, _rounds - 1) if True else tree
+        if ast.dump(tree) == before:
+            return tree
+    return tree
 
 
 class ProgramDB:
